@@ -567,7 +567,12 @@ func (v *Value) Interface() any {
 func (v *Value) EqualValueTo(other *Value) bool {
 	// comparison of uint with int fails using .Interface()-comparison (see issue #64)
 	if v.IsInteger() && other.IsInteger() {
-		return v.Integer() == other.Integer()
+		if v.Integer() != other.Integer() {
+			return false
+		}
+		// (Integer() saturates: every unsigned value no int holds is the largest int.
+		// Those are compared exactly.)
+		return v.Integer() != math.MaxInt || bigNumber(v).Cmp(bigNumber(other)) == 0
 	}
 	if v.IsTime() && other.IsTime() {
 		return v.Time().Equal(other.Time())
